@@ -9,6 +9,7 @@ import (
 	"fmt"
 	"go/types"
 	"os"
+	"slices"
 	"sort"
 	"strings"
 
@@ -99,7 +100,8 @@ type nilAnalysis struct {
 	flows   map[*ssa.Function]*Flow
 	sigT    types.Type
 	nonNilP map[*ssa.Parameter]bool // parameters proven non-nil at every call site
-	entry   map[*ssa.Function]bool  // entry points: their message parameter is non-nil (decoded by gorums)
+	sites   map[*ssa.Parameter][]nilSite
+	entry   map[*ssa.Function]bool // entry points: their message parameter is non-nil (decoded by gorums)
 }
 
 func (na *nilAnalysis) flow(fn *ssa.Function) *Flow {
@@ -354,14 +356,33 @@ func (na *nilAnalysis) calleeNonNilOnSuccess(call *ssa.Call) bool {
 
 var succNN = map[*ssa.Function]int{}
 
+type nilSite struct {
+	caller *ssa.Function
+	instr  ssa.CallInstruction
+	arg    ssa.Value
+}
+
+// origin follows a possibly-nil parameter back to the call sites that pass the possibly-nil
+// value, so that a finding is attributed to the expression that produces the value (and keeps
+// its identity when the dereference is moved into a helper).
+func (na *nilAnalysis) origin(fn *ssa.Function, v ssa.Value, at ssa.Instruction, depth int) (*ssa.Function, ssa.Value, ssa.Instruction) {
+	prm, ok := v.(*ssa.Parameter)
+	if !ok || depth > 4 {
+		return fn, v, at
+	}
+	for _, s := range na.sites[prm] {
+		if !na.nonNil(s.caller, s.arg, s.instr, 0) {
+			return na.origin(s.caller, s.arg, s.instr, depth+1)
+		}
+	}
+	return fn, v, at
+}
+
 // solveParams: a parameter is non-nil if every call site in scope passes a non-nil value.
 func (na *nilAnalysis) solveParams(relevant func(types.Type) bool) {
-	type site struct {
-		caller *ssa.Function
-		instr  ssa.CallInstruction
-		arg    ssa.Value
-	}
+	type site = nilSite
 	sites := map[*ssa.Parameter][]site{}
+	na.sites = sites
 	unknownCaller := map[*ssa.Parameter]bool{}
 	for fn := range na.scope {
 		eachInstr(fn, func(in ssa.Instruction) {
@@ -487,7 +508,13 @@ func checkC10(c *Ctx) {
 				if cc.IsInvoke() && na.isSig(cc.Value.Type()) {
 					count[name]++
 					if !na.nonNil(fn, cc.Value, in, 0) {
-						per[name] = append(per[name], finding{name, p.InstrPos(in), "method " + cc.Method.Name() + " invoked on signature " + shortVal(na.flow(fn).K.Key(cc.Value)) + " which may be nil"})
+						ofn, ov, oat := na.origin(fn, cc.Value, in, 0)
+						oname := shortName(ofn)
+						if _, seen := count[oname]; !seen {
+							count[oname] = 1
+							fnNames = append(fnNames, oname)
+						}
+						per[oname] = append(per[oname], finding{oname, p.InstrPos(oat), "method " + cc.Method.Name() + " invoked on signature " + shortVal(na.flow(ofn).K.Key(ov)) + " which may be nil"})
 					}
 				}
 			case *ssa.MakeInterface:
@@ -530,6 +557,7 @@ func checkC10(c *Ctx) {
 		}
 	}
 	sort.Strings(fnNames)
+	fnNames = slices.Compact(fnNames)
 	for _, name := range fnNames {
 		fs := per[name]
 		if len(fs) == 0 {
